@@ -564,7 +564,7 @@ def load_data(path: Path) -> tuple[NDArray, str, NDArray]:
     its uncertainty."""
     _, _, closed = load_header(path)
 
-    zleft, zright, data, _ = np.loadtxt(path).T
+    zleft, zright, data, _ = np.loadtxt(path, ndmin=2).T
     edges = np.append(zleft, zright[-1])
     return edges, closed, data
 
@@ -596,7 +596,7 @@ def write_samples(
 
 def load_samples(path: Path) -> NDArray:
     """Read the redshift estimate jackknife samples from an ASCII text file."""
-    return np.loadtxt(path).T[2:]  # remove binning columns
+    return np.loadtxt(path, ndmin=2).T[2:]  # remove binning columns
 
 
 def write_covariance(path: Path, description: str, *, covariance: NDArray) -> None:
